@@ -86,3 +86,37 @@ pub fn models() -> &'static Vec<Model> {
 pub fn built_root(p: &Prog, b: &Built) -> Node {
     b.nodes[p.outputs[0] as usize]
 }
+
+/// Compares a screen-to-model matrix with `world_to_model * screen_to_world`
+/// computed here in f64 from the documented screen-to-world map (RegionSize
+/// docs: the shorter side spans -1..+1, `+1` lies one pixel beyond the right /
+/// top edge, Y is reversed, +z points out of the screen). Every entry must
+/// agree within a few f32 roundings of the terms it sums. `size` and the
+/// matrices are `N`-dimensional with homogeneous coordinates (row-major).
+pub fn check_documented_mat(size: &[u32], world_to_model: &[Vec<f64>], got: &[Vec<f64>]) -> Option<String> {
+    let n = size.len();
+    let s = 2.0 / *size.iter().min().unwrap() as f64;
+    let mut sw = vec![vec![0f64; n + 1]; n + 1];
+    for a in 0..n {
+        let (scale, centre) = if a == 1 { (-s, size[a] as f64 / 2.0 - 1.0) } else { (s, size[a] as f64 / 2.0) };
+        sw[a][a] = scale;
+        sw[a][n] = -centre * scale;
+    }
+    sw[n][n] = 1.0;
+    for r in 0..=n {
+        for c in 0..=n {
+            let (mut want, mut mag) = (0f64, 0f64);
+            for k in 0..=n {
+                want += world_to_model[r][k] * sw[k][c];
+                mag += (world_to_model[r][k] * sw[k][c]).abs();
+            }
+            if !((got[r][c] - want).abs() <= 16.0 * f32::EPSILON as f64 * mag + 1e-38) {
+                return Some(format!(
+                    "entry ({r},{c}) of the screen-to-model matrix is {:e}, world_to_model * (documented screen_to_world) gives {want:e}",
+                    got[r][c]
+                ));
+            }
+        }
+    }
+    None
+}
